@@ -5,6 +5,7 @@ package main
 import (
 	"errors"
 	"sync"
+	"sync/atomic"
 
 	"github.com/NethermindEth/juno/db"
 	"github.com/NethermindEth/juno/db/memory"
@@ -29,8 +30,19 @@ type faultStore struct {
 	dead    bool
 	inflate int
 	hook    func(n int, s *faultStore)
-	// writeLog of commit kinds for the histogram
+	// commit kinds for the histogram
 	kinds map[string]int
+	// reads counts Get calls; readHook (if set) is called with the running number, outside any lock
+	reads    atomic.Int64
+	readHook func(n int64)
+}
+
+func (s *faultStore) Get(key []byte, cb func([]byte) error) error {
+	n := s.reads.Add(1)
+	if s.readHook != nil {
+		s.readHook(n)
+	}
+	return s.Database.Get(key, cb)
 }
 
 var errDead = errors.New("verif: store is dead (simulated crash)")
